@@ -763,7 +763,8 @@ def run(ctx):
             dbg["fail"].setdefault(kl, []).append([cfg[0], fn, vin, got, exp])
             ctx.fail(kl, inp, got, exp, note="model says %s" % m)
     ctx.extra["unmodelled_cases"] = n_unmodelled
-    run_text(ctx, tmods, model, dbg)
+    if tmods:
+        run_text(ctx, tmods, model, dbg)
     if os.environ.get("C33_DEBUG"):
         with open(os.environ["C33_DEBUG"], "w") as f:
             json.dump(dbg, f)
@@ -846,7 +847,7 @@ def replay(ctx, obj):
 # ================================================================== (B) text conversions
 # __Pyx_PyObject_AsStringAndSize / __Pyx_PyUnicode_AsStringAndSize / __Pyx_PyObject_FromString[AndSize]
 # under every c_string_type / c_string_encoding class, through every entry point.
-FX_LIMNULL = os.environ.get("C33_FX_LIMNULL", "0")     # "1" once proposed_fixes/C33-limited_api_ascii_surrogate_systemerror.diff is applied
+FX_LIMNULL = os.environ.get("C33_FX_LIMNULL", "1")     # "1" once proposed_fixes/C33-limited_api_ascii_surrogate_systemerror.diff is applied
 LIMITED = ["CYTHON_LIMITED_API=1", "Py_LIMITED_API=0x030c0000"]
 
 # key, c_string_type, c_string_encoding (as written), normalised (type, enc), model tokens, how the directive is
@@ -915,6 +916,8 @@ def vec_string(o):
 
 
 def text_modules(quick):
+    if os.environ.get("C33_NO_TEXT"):       # timing aid only (wall time of part A alone)
+        return []
     return TEXT_QUICK if quick else TEXT_QUICK + TEXT_THOROUGH
 
 
@@ -937,12 +940,12 @@ def text_entries(tm):
 
 # code points at the boundaries of every storage class / encoder branch
 CP_CLASSES = [
-    ("nul", [0]),
     ("ascii", [0x01, 0x41, 0x7f]),
     ("latin1", [0x80, 0xa0, 0xe9, 0xff]),
     ("bmp", [0x100, 0x7ff, 0x800, 0x20ac, 0xd7ff, 0xe000, 0xffff]),
     ("astral", [0x10000, 0x1f600, 0x10ffff]),
     ("surrogate", [0xd800, 0xdbff, 0xdc00, 0xdfff]),
+    ("nul", [0]),
 ]
 BACKGROUNDS = [("a", [0x61, 0x62]), ("l", [0xe9, 0xbf]), ("b", [0x20ac, 0x100]), ("s", [0x1f600, 0x10000])]
 # ill-formed / boundary UTF-8 sequences (and the well-formed neighbours)
@@ -1006,7 +1009,7 @@ def text_inputs(ctx, quick):
     pool = [c for _, cps in CP_CLASSES for c in cps]
     for i in range(12 if quick else 300):
         n = rng.choice([1, 2, 3, 5, 9])
-        cl = rng.choice(CP_CLASSES[:5 if rng.random() < 0.7 else 6])[1]
+        cl = rng.choice(CP_CLASSES[:4 if rng.random() < 0.7 else 6])[1]
         cps = [rng.choice(cl + [0x61, 0x7a]) if rng.random() < 0.8 else rng.choice(pool) for _ in range(n)]
         if not quick and rng.random() < 0.3:
             cps = [rng.randrange(0x110000) for _ in range(n)]
